@@ -46,7 +46,7 @@ func init() {
 		CaseTimeoutS:     90,
 		MaxProcs:         8,
 		MinObs: func(tier string) map[string]int64 {
-			return map[string]int64{"startups": 50, "restarts": 60, "task_sets_compared": 80, "events": 3000, "unknown_source_cases": 5, "db_entries": 30, "name_clash_cases": 10, "restarts_at_hook_points": 15, "dashboard_submissions": 8, "overlapping_restarts": 4, "binary_unknown_source_exits_nonzero": 2}
+			return map[string]int64{"startups": 50, "restarts": 60, "task_sets_compared": 80, "events": 3000, "unknown_source_cases": 5, "db_entries": 30, "name_clash_cases": 10, "restarts_at_hook_points": 15, "dashboard_submissions": 8, "overlapping_restarts": 4, "binary_unknown_source_exits_nonzero": 2, "binary_shadow_held": 1}
 		},
 	})
 }
